@@ -22,7 +22,8 @@ pub fn run_isolated(child_args: &[String], total: usize, batch: usize, mem_kib: 
             shell_quote(&exe.display().to_string()),
             child_args.iter().map(|a| shell_quote(a)).collect::<Vec<_>>().join(" ")
         );
-        let mut child = Command::new("sh").arg("-c").arg(&cmdline).stdout(Stdio::null()).stderr(Stdio::null()).spawn().expect("spawn child");
+        let errf = format!("{part}.stderr");
+        let mut child = Command::new("sh").arg("-c").arg(&cmdline).stdout(Stdio::null()).stderr(std::fs::File::create(&errf).map(Stdio::from).unwrap_or_else(|_| Stdio::null())).spawn().expect("spawn child");
         let deadline = Instant::now() + Duration::from_secs(secs_per_input * (end - start) as u64 + 20);
         let mut last_progress = Instant::now();
         let mut last_size = 0u64;
@@ -76,13 +77,22 @@ pub fn run_isolated(child_args: &[String], total: usize, batch: usize, mem_kib: 
                 // (a loaded machine can starve a child for longer than the watchdog's patience)
                 match run_alone(&exe, child_args, idx, mem_kib, (secs_per_input * 6).max(180), &part) {
                     Some(v) => tr.emit(v),
-                    None => tr.emit(json!({"ev":"Died","idx":idx,"why":why,"input":describe(idx)})),
+                    None => {
+                        // running out of the address-space limit is not a property of the code under test: the input "does not fit in memory"
+                        let oom = std::fs::read_to_string(format!("{part}.stderr")).map(|t| t.contains("memory allocation of")).unwrap_or(false);
+                        if oom {
+                            tr.emit(json!({"ev":"OutOfMemory","idx":idx,"why":"memory allocation failed under the address-space limit","input":describe(idx)}));
+                        } else {
+                            tr.emit(json!({"ev":"Died","idx":idx,"why":why,"input":describe(idx)}));
+                        }
+                    }
                 }
             }
             start = idx + 1;
         }
     }
     let _ = std::fs::remove_file(&part);
+    let _ = std::fs::remove_file(format!("{part}.stderr"));
 }
 
 /// one input in a child of its own; Some(result event) when it completes normally
@@ -94,7 +104,7 @@ fn run_alone(exe: &std::path::Path, child_args: &[String], idx: usize, mem_kib: 
         child_args.iter().map(|a| shell_quote(a)).collect::<Vec<_>>().join(" "),
         idx + 1
     );
-    let mut child = Command::new("sh").arg("-c").arg(&cmdline).stdout(Stdio::null()).stderr(Stdio::null()).spawn().ok()?;
+    let mut child = Command::new("sh").arg("-c").arg(&cmdline).stdout(Stdio::null()).stderr(std::fs::File::create(format!("{part}.stderr")).map(Stdio::from).unwrap_or_else(|_| Stdio::null())).spawn().ok()?;
     let deadline = Instant::now() + Duration::from_secs(secs);
     let ok = loop {
         match child.try_wait().ok()? {
